@@ -264,6 +264,30 @@ def run_extra(cx):
                         ok = any(match('(lt (anyphi (loop)) (mul 2.0 (field radius (field ball (field circle (itervar (param stations)))))))', a) is not None for a in g)
         cx.ob('EXPR', 'find_tmax_circle', ok, 'the thickest station is a running maximum over ALL stations by diameter (replaced only under strictly larger)', where=b.file)
 
+    # ---------------------------------------------------------------- units of two numeric stop / selection criteria
+    b = cx.fn('airfoil::helpers::inscribed_from_spanning_ray')
+    if b:
+        lp = b.loops()
+        conds = []
+        for bi in (lp[0][1] if lp else ()):
+            t = b.blocks[bi]['term']
+            if t['k'] == 'switch' and any(x not in lp[0][1] for x in b.succ[bi]):
+                conds.append(simplify(b.dag().operand(t['d'], bi, len(b.blocks[bi]['stmts']))))
+        okb = len(lp) == 1 and len(conds) == 1 and (
+            match('(lt (param tol) (mul (call Matrix::norm (call *SpanningRay::dir (param ray))) (sub (anyphi (field fraction _)) (anyphi (field fraction _)))))', conds[0]) is not None or
+            match('(lt (param tol) (mul (call *SpanningRay::length (param ray)) (sub (anyphi (field fraction _)) (anyphi (field fraction _)))))', conds[0]) is not None)
+        cx.ob('EXPR', 'inscribed_from_spanning_ray:bracket-is-a-length', okb,
+              'the bisection runs while the bracket, measured as a LENGTH along the spanning ray (fraction difference times the ray length), exceeds the tolerance: '
+              'comparing the bare fraction with a length tolerance makes the accuracy depend on the thickness of the section', where=b.file, found='; '.join(show(c)[:300] for c in conds))
+    b = cx.fn('airfoil::edges::ConvergeTangentEdge::find_edge')
+    if b:
+        ev = [d for s_, d in cx.push_events(b) if d[0] == 'agg' and d[1] == 'tuple' and len(d) == 5]
+        okm = len(ev) == 1 and (match('(call f64::abs (sub _ _))', dict(ev[0][2:]).get('0')) is not None or match('(call f64::abs (call f64::sub _ _))', dict(ev[0][2:]).get('0')) is not None)
+        mins = b.calls('Iterator::min_by')
+        cx.ob('EXPR', 'ConvergeTangentEdge::find_edge:nearest', okm and len(mins) == 1,
+              'candidate positions are ranked by their ABSOLUTE distance |x - x0| from the reference position and the nearest is taken (a signed difference would pick the farthest-back one)',
+              where=b.file, found='; '.join(show(d)[:200] for d in ev))
+
 
 def run_thorough(cx):
     """thorough tier: the generic evaluators this property relies on must fire on their positive fixture twins"""
